@@ -155,6 +155,8 @@ func TestC12RWEnum(t *testing.T) {
 	progs := []RWCase{
 		{Sizes: []int{3, 0, 3}}, {Sizes: nil}, {Sizes: []int{0, 5}}, {Sizes: []int{5, 0}}, {Sizes: []int{0}}, {Sizes: []int{1, 1}},
 		{Sizes: []int{40000, 0, 40000}}, {Sizes: []int{3, 3}, FailAt: 1}, {Sizes: []int{0, 3}, FailAt: 2},
+		// a writer megabytes ahead of a storing side that fails (or does not)
+		{Sizes: []int{3 << 20, 1}, FailAt: 512 << 10}, {Sizes: []int{1 << 20, 1 << 20, 1}, FailAt: 40000}, {Sizes: []int{2 << 20, 1}},
 	}
 	total := 0
 	for _, p := range progs {
@@ -178,8 +180,11 @@ func genRW(t *rapid.T) RWCase {
 	for n := rapid.IntRange(0, 8).Draw(t, "nwrites"); n > 0; n-- {
 		c.Sizes = append(c.Sizes, rapid.SampledFrom([]int{0, 0, 1, 3, 2048, 32768, 40000}).Draw(t, "size"))
 	}
+	if rapid.IntRange(0, 9).Draw(t, "huge") == 0 && len(c.Sizes) > 0 {
+		c.Sizes[rapid.IntRange(0, len(c.Sizes)-1).Draw(t, "hugeAt")] = rapid.SampledFrom([]int{1 << 20, 1<<20 + 1, 3 << 20}).Draw(t, "hugeSize")
+	}
 	if rapid.IntRange(0, 4).Draw(t, "fails") == 0 {
-		c.FailAt = rapid.SampledFrom([]int{1, 3, 2048, 40000}).Draw(t, "failAt")
+		c.FailAt = rapid.SampledFrom([]int{1, 3, 2048, 40000, 512 << 10}).Draw(t, "failAt")
 	}
 	c.Sched = genSchedule(t, 120)
 	return c
